@@ -41,17 +41,26 @@ TolE(b)   == CASE b = "le10" -> 6 [] b = "le30" -> 4 [] b = "le65" -> 2 [] OTHER
 Small(b)  == b \in {"le10", "le30"}
 
 Has(r, k) == k \in DOMAIN r
-\* errors of one family, lowest order first: the highest within 1e-9 on faces up to 30 degrees, none
-\* larger than the lowest order's (1e-12 is the rounding floor of the float reference)
+\* errors of one family, lowest order first: the highest order is within 1e-9 on faces up to 30 degrees
+\* and never worse than the lowest order (1e-12 is the rounding floor of the float reference).
+\* Intermediate orders are NOT compared with the lowest one: a one-point rule is accidentally good on
+\* some faces (observed: gaussian order 2 slightly worse than order 1 on small triangles).
 Converges(b, errs) ==
     /\ Small(b) => Le(errs[Len(errs)], 1, 9)
-    /\ \A k \in 2..Len(errs) : Leq(errs[k], errs[1]) \/ Le(errs[k], 1, 12)
+    /\ Leq(errs[Len(errs)], errs[1]) \/ Le(errs[Len(errs)], 1, 12)
+\* "converges as the order rises", intermediate orders: a rule at least as exact as the default one
+\* (gaussian with >= 3 points integrates degree 5, triangular orders >= 4) is at least within the
+\* accuracy class the property grants the default rule on that face
+HigherOrders(b, g, t) ==
+    HasClass(b) => /\ \A k \in 3..Len(g) : Le(g[k], 1, TolE(b))
+                   /\ \A k \in 2..Len(t) : Le(t[k], 1, TolE(b))
 
 FaceClauses(r) ==
     [ NonNegative          |-> ~r.neg,
       DefaultAccuracy      |-> HasClass(r.bucket) => Le(r.d, 1, TolE(r.bucket)),
       ConvergesGaussian    |-> Converges(r.bucket, r.g),
       ConvergesTriangular  |-> Converges(r.bucket, r.t),
+      HigherOrdersWithinClass |-> HigherOrders(r.bucket, r.g, r.t),
       CartesianInputAgrees |-> ~r.cneg /\ Le(r.cx, 1, TolE(r.bucket)) ]
 
 SubOK(b, s) == /\ HasClass(b) => Le(s.add_d, 2, TolE(b))
@@ -68,8 +77,8 @@ MeshClauses(r) ==
     [ NonNegative          |-> ~r.neg,
       TotalIs4Pi           |-> /\ HasClass(r.bucket) => Le(r.tot_d, 1, TolE(r.bucket))
                                /\ Small(r.bucket) => Le(r.tot_hi, 1, 9)
-                               /\ Leq(r.tot_g[Len(r.tot_g)], r.tot_g[1]) \/ Le(r.tot_g[Len(r.tot_g)], 1, 12)
-                               /\ Leq(r.tot_t[Len(r.tot_t)], r.tot_t[1]) \/ Le(r.tot_t[Len(r.tot_t)], 1, 12),
+                               /\ Converges(r.bucket, r.tot_g) /\ Converges(r.bucket, r.tot_t)
+                               /\ HigherOrders(r.bucket, r.tot_g, r.tot_t),
       TotalFunctionAgrees  |-> Le(r.tot_fn, 1, 12),
       RenumberInvariant    |-> Le(r.renum, 1, 10),
       CachedEqualsFresh    |-> r.cached ]
@@ -79,7 +88,7 @@ Clauses(r) == CASE r.kind = "face" -> FaceClauses(r)
                 [] r.kind = "mesh" -> MeshClauses(r)
 Failed(r) == LET c == Clauses(r) IN { k \in DOMAIN c : ~c[k] }
 \* abstract class of a Cartesian-input disagreement (part of a finding's signature)
-CartClass(r) == IF r.kind = "face" /\ Has(r, "czero") /\ r.czero THEN "zero" ELSE "other"
+CartClass(r) == IF r.kind = "face" /\ Has(r, "czero") /\ r.czero THEN "degenerate" ELSE "other"
 
 Judge == i > 0 => LET r == Recs[i]  fl == Failed(r) IN
                   fl = {} \/ PrintT(<<"V", r.id, fl, CartClass(r)>>)
@@ -95,6 +104,7 @@ SelfTest ==
        /\ Failed([ good EXCEPT !.bucket = "le10" ]) = {"DefaultAccuracy"}
        /\ Failed([ good EXCEPT !.g = << Q(Cap, 900), Q(10001, 1) >> ]) = {"ConvergesGaussian"}
        /\ Failed([ good EXCEPT !.t = << Q(50, 1), Q(9000, 1) >> ]) = {"ConvergesTriangular"}
+       /\ Failed([ good EXCEPT !.g = << Q(Cap, 900), Q(5, 1), Q(Cap, 101), Q(5000, 1) >> ]) = {"HigherOrdersWithinClass"}
        /\ Failed([ good EXCEPT !.cx = Q(Cap, 1000000), !.czero = TRUE ]) = {"CartesianInputAgrees"}
        /\ Failed([ good EXCEPT !.neg = TRUE ]) = {"NonNegative"}
 ASSUME SelfTest
